@@ -30,6 +30,7 @@ def dispatch (cmd : String) (args : List String) : String :=
     | "C14" :: rest => orcC14 rest
     | "C03" :: rest => orcC03 rest
     | "C01" :: rest => orcC01 rest
+    | "C20" :: rest => orcC20 rest
     | "C02" :: rest => orcTrace Portus.Rt.checkC02 rest
     | "C09" :: rest => orcTrace Portus.Rt.checkC09 rest
     | "C16" :: rest => orcTrace Portus.Rt.checkC16 rest
